@@ -224,7 +224,22 @@ def parse_checks(unit):
     ids = [c.id for c in checks]
     if len(ids) != len(set(ids)):
         raise Fault('duplicate check ids in %s: %s' % (path, [i for i in ids if ids.count(i) > 1]))
-    tags = set(re.findall(r'\bFRESH\(\s*(\w+)\s*,', txt)) | set(c.tag for c in checks)
+    # FRESH/TOP tags may also come from contract headers shared between units
+    alltxt = txt
+    seen = set()
+    todo = re.findall(r'#include "([\w./-]+)"', txt)
+    while todo:
+        inc = todo.pop()
+        for base in (unit.dir, os.path.join(VERIF, 'units')):
+            p = os.path.normpath(os.path.join(base, inc))
+            if os.path.exists(p) and p not in seen and p.startswith(os.path.join(VERIF, 'units')):
+                seen.add(p)
+                t = open(p).read()
+                alltxt += '\n' + t
+                todo += [os.path.join(os.path.dirname(inc), i) if not os.path.exists(os.path.join(base, i)) else i for i in re.findall(r'#include "([\w./-]+)"', t)]
+                break
+    tags = set(re.findall(r'\b(?:FRESH|TOP)\(\s*(\w+)\s*,', alltxt)) | set(c.tag for c in checks)
+    tags |= set(re.findall(r'_CONTRACT\(\s*(\w+)\s*,', alltxt))
     return checks, sorted(tags), txt
 
 
